@@ -98,7 +98,8 @@ def judge(ctx, name, paths, report=True, parallel=None):
             nontrivial[leg] = nontrivial.get(leg, 0) + 1
             real = any(e.get("real") for e in ev)
             ctx.distinct("real kernel tree" if real else [e["f"] for e in ev if e["k"] == "file"])
-            if shown.get(leg, 0) < 2:
+            if shown.get(leg, 0) < 2 and sum(1 for e in ev if e["k"] == "file") <= 120 and \
+                    all(len(e["f"]["decls"]) <= 12 for e in ev if e["k"] == "file"):
                 shown[leg] = shown.get(leg, 0) + 1
                 files = [e["f"] for e in ev if e["k"] == "file"]
                 ctx.sample({"leg": leg, "real_kernel_tree": real, "n_files": len(files),
@@ -126,7 +127,9 @@ def run(ctx):
     ctx.rule = ("case = one source tree (files -> declarations -> comment lines) built several times; leg G builds every tree TLC "
                 "enumerated in the small scope (every declaration kind x doc comment x look-alike placement; every sequence of "
                 "annotated/unannotated func/var/method declarations in a file; files at depth 0..3 as source/test/other), leg T builds "
-                "seeded random trees of up to 60 files and the repository's kernel tree described by a line scanner; a case is distinct "
+                "seeded random trees of up to 60 files (a quarter of them with source lines of 65535..1 MiB bytes as string literal, // or /* */ "
+                "comment before/between/after annotated functions), a directory of 1100 files, a file of 1200 declarations, directories 12 deep, "
+                "and the repository's kernel tree described by a line scanner; a case is distinct "
                 "by its abstract tree and non-trivial when the real tool returned a non-empty table")
     d = ctx.spec_dir(*SPEC)
     tier = "Quick" if q else "Full"
